@@ -1,10 +1,44 @@
 import Driver.Loop
 import Driver.Codec
-open PyGql
+import PyGqlModel.Lex
+import PyGqlModel.ParseDoc
+import PyGqlModel.Print
+open PyGql PyGql.Parse PyGql.Ast
 
 namespace Driver.PrintOps
 
-/-- answer the request if its "op" belongs to this group (stub: to be filled by the owner) -/
-def handle? (_j : J) : Option J := none
+/-- `{"w": <int>}` (number of spaces) or `{"s": [code points]}` (the indent string) -/
+def indentOfJson (j : J) : Print.IndentArg :=
+  match j.get? "s" with
+  | some s => .str ((J.asText? s).getD [])
+  | none => .width (j.intD "w" 4)
+
+/-- the whole model pipeline: text → `lexAll` → parser entry point → printer -/
+def printParse (entry : String) (fl : Flags) (c : Print.Cfg) (text : Text) : Except String Text :=
+  match Lex.lexAll text with
+  | .error _ => .error "lex"
+  | .ok toks =>
+    match entry with
+    | "value" => match parseValue fl toks with
+      | .ok v => .ok (Print.printValue c v)
+      | .error _ => .error "parse"
+    | "type" => match parseType fl toks with
+      | .ok t => .ok (Print.printType t)
+      | .error _ => .error "parse"
+    | _ => match parseDocument fl toks with
+      | .ok d => .ok (Print.printDocument c d)
+      | .error _ => .error "parse"
+
+/-- answer the request if its "op" belongs to the printer group.
+    "print_parse": text → lex → parse → print;  "print_twice": also print(parse(print t)) (model-side stability) -/
+def handle? (j : J) : Option J :=
+  match j.strD "op" with
+  | "print_parse" =>
+    let fl : Flags := { noLocation := true, allowTypeSystem := j.boolD "ts", experimentalFragmentVariables := j.boolD "fv" }
+    let c := Print.mkCfg (indentOfJson (j.getD "indent")) (j.boolD "desc" true)
+    some <| match printParse (j.strD "entry") fl c (j.textD "text") with
+    | .ok t => .obj [("ok", .bool true), ("text", J.ofText t)]
+    | .error stage => .obj [("ok", .bool false), ("stage", .str stage)]
+  | _ => none
 
 end Driver.PrintOps
